@@ -54,7 +54,13 @@ def judge_triple(ctx, case):
         ctx.judge("public_data", False, case, xpub, wE.extended_public_key(version=ver), cls="export", mech="C14.export_mismatch")
         return
     try:
-        V = PaperWallet.from_extended_key(extended_key=xpub)
+        route = case.get("import_route", "from_extended_key")
+        if route == "from_extended_key":
+            V = PaperWallet.from_extended_key(extended_key=xpub)
+        else:
+            # the watch-only wallet is built on a node parsed by the caller: from the string, the raw bytes, a stream
+            # positioned behind a header, or the second record of a stream of exported keys
+            V = PaperWallet(master=bridge.mk_node(E, tn, route, public=True, purpose=purpose), testnet=tn)
     except Exception as e:  # noqa
         ctx.judge("public_data", False, case, "wallet", e, cls="import|raised", mech="C14.import.raised")
         return
@@ -258,7 +264,8 @@ def gen_case(rnd, j):
         L = rnd.randrange(1, 6)
         subs.append([rnd.choice([0, 1, H - 1, rnd.randrange(0, H)]) for _ in range(L)])
     return {"seed": gen.rbytes(rnd, rnd.choice([16, 32, 64])), "testnet": tn, "export_path": ep,
-            "purpose": [44, 49, 84][(j // 2) % 3], "subpaths": subs, "full_first": rnd.random() < 0.75}
+            "purpose": [44, 49, 84][(j // 2) % 3], "subpaths": subs, "full_first": rnd.random() < 0.75,
+            "import_route": rnd.choice(["from_extended_key", "from_extended_key", "str", "bytes", "stream", "stream-offset", "stream-second"])}
 
 
 def run(ctx):
